@@ -35,27 +35,31 @@ theorem acq_facts {s : State} (hi : InvA s) {t : Tid} {exp new obs : Nat} {o n :
   obtain ⟨n1, n2⟩ := acq_words hsp hn
   exact ⟨ho', hsp, hnone, n1, n2, hi.nobody_holds hsp⟩
 
-/-- Acquisition without any change of records: wait-check (cv.c:252) and wait_n (cv.c:463/475). -/
+/-- Acquisition without any change of records: wait-check (cv.c:252), wait_n (cv.c:463/475) and
+    emit_cv_state (debug.c:248). -/
 theorem invA_acq_plain {s : State} (hi : InvA s) (t : Tid) (n : Word) (lnew : Loc) (hl : (s.thr t).loc = .spCas)
-    (hc : (s.thr t).cont = .waitChk ∧ lnew = .wChk2 ∨ (s.thr t).cont = .waitn ∧ lnew = .nLocked)
+    (hc : (s.thr t).cont = .waitChk ∧ lnew = .wChk2 ∨ (s.thr t).cont = .waitn ∧ lnew = .nLocked ∨
+      (s.thr t).cont = .dbg ∧ lnew = .dWalk)
     (hnone : s.holder = none) (hn1 : n.spin = true)
     (hsp : s.word.spin = false) (hfree : ∀ u, (s.thr u).loc.holds = false) :
     InvA ({ s with word := n, holder := some t }.setThr t { s.thr t with old := s.word, loc := lnew }) := by
   tfacts hl
   have hlist : (s.thr t).list = [] := t1 trivial
-  have hln : lnew.holds = true := by rcases hc with ⟨_, h⟩ | ⟨_, h⟩ <;> simp [h, Loc.holds]
+  have hln : lnew.holds = true := by rcases hc with ⟨_, h⟩ | ⟨_, h⟩ | ⟨_, h⟩ <;> simp [h, Loc.holds]
   refine invA_one (t := t) (r := (s.thr t).r) hi (fun u hu => by simp [hu]) (fun q _ => rfl) (fun u _ => hfree u)
     (by simp [hn1]) (.inl ⟨rfl, by simpa using hln⟩) (by intro _; simpa [hsp] using hi.free hnone)
     (by simp) hi.qNd hi.qMem (fun h => h.elim (hi.qWait _) (hi.pWait _)) (by simpa using hi.lNd t)
     (by simpa using hi.lMem t) (fun u _ => Iff.rfl) (fun h => .inr (RecOK.rfl' h)) ?_ ?_
-  · rcases hc with ⟨hc, rfl⟩ | ⟨hc, rfl⟩
+  · rcases hc with ⟨hc, rfl⟩ | ⟨hc, rfl⟩ | ⟨hc, rfl⟩
+    · simp only [hc] at t2 t3 t8
+      constructor <;> simp [waitLive, waitPrep, inWaitN, Loc.wakePhase, hlist] <;> simp_all
     · simp only [hc] at t2 t3 t8
       constructor <;> simp [waitLive, waitPrep, inWaitN, Loc.wakePhase, hlist] <;> simp_all
     · simp only [hc] at t2 t3 t8
       constructor <;> simp [waitLive, waitPrep, inWaitN, Loc.wakePhase, hlist] <;> simp_all
   · intro u hb1 hb2
     by_cases hu : u = t
-    · subst hu; rcases hc with ⟨_, rfl⟩ | ⟨_, rfl⟩ <;> simp at hb2
+    · subst hu; rcases hc with ⟨_, rfl⟩ | ⟨_, rfl⟩ | ⟨_, rfl⟩ <;> simp at hb2
     · simp [hu] at hb2
       have := hfree u
       rcases hb2 with hb2 | hb2 | hb2 <;> simp [hb2, Loc.holds] at this
